@@ -33,6 +33,7 @@ def main():
     seed = int(os.environ.get("VERIF_SEED", "1") or 1)
     t0 = time.time()
     ctx = units.Ctx(ROOT, a.id, a.tier, seed, clean=not a.replay)
+    ctx.partial = bool(a.only)
     try:
         if not a.no_build:
             units.build_harness(ctx)
